@@ -19,9 +19,11 @@ import re
 import gen_tables
 import modelgen
 import vlib
+from checks import c09_types
 
 THEOREMS = ["Yardl.C09.violation_anywhere_rejects", "Yardl.C09.accepted_means_every_node_ok", "Yardl.C09.visitor_reaches_every_child",
-            "Yardl.C09.visitor_covers_type_nodes", "Yardl.C09.all_rule_passes_in_pipeline", "Yardl.C09.import_and_version_errors_returned", "Yardl.C09.reference_cycle_is_rejected"]
+            "Yardl.C09.visitor_covers_type_nodes", "Yardl.C09.all_rule_passes_in_pipeline", "Yardl.C09.import_and_version_errors_returned", "Yardl.C09.reference_cycle_is_rejected", "Yardl.C09.type_rules_enforced_anywhere", "Yardl.C09.null_must_be_first",
+            "Yardl.C09.null_alone_is_rejected", "Yardl.C09.unions_do_not_nest", "Yardl.C09.map_key_must_be_scalar", "Yardl.C09.array_dimension_rules"]
 
 P = lambda n: ("prim", n)
 
@@ -44,6 +46,11 @@ TYPE_VIOLATIONS = [
     ("stream-outside-step", "!stream {items: int}", None),
     ("map-key-not-primitive", "!map {keys: !vector {items: int}, values: int}", None),
     ("map-key-optional", '!map {keys: "int?", values: int}', None),
+    # named key types: what they refer to is only known after type resolution
+    ("map-key-record", '!map {keys: "ZzBox<int>", values: int}', None),
+    ("map-key-enum", '!map {keys: ZzKeyEnum, values: int}', None),
+    ("map-key-alias-of-vector", '!map {keys: ZzKeyVec, values: int}', None),
+    ("map-key-alias-of-optional", '!map {keys: ZzKeyOpt, values: int}', None),
     ("array-dimension-lengths-inconsistent", "!array {items: int, dimensions: [{name: x, length: 3}, {name: y}]}", None),
     ("array-dimension-duplicate-name", "!array {items: int, dimensions: [x, x]}", None),
     ("array-dimension-bad-name", '!array {items: int, dimensions: ["9x"]}', None),
@@ -79,6 +86,9 @@ def run(report, tier, seed):
     with vlib.Scratch("vf-c09-") as sc:
         ybin = vlib.build_yardl(sc)
         rr = random.Random(seed * 7331 + 9)
+        gen_lean = vlib.LeanDriver("wiredrv")
+        c09_types.type_rules(report, ybin, sc, gen_lean, random.Random(seed * 911 + 9), 400 if quick else 6000, seed)
+        gen_lean.close()
         n_bases = 2 if quick else 8
         per_base = 100 if quick else 300
         for b in range(n_bases):
@@ -115,13 +125,16 @@ def _site_defs(kind, bad):
     """definitions that carry the (wrapped) violating type at the requested site"""
     box = {"kind": "record", "name": "ZzBox", "tparams": ["T"], "fields": [("v", ("tparam", "T"))]}
     other = {"kind": "record", "name": "ZzOther", "tparams": ["ZzQ"], "fields": [("q", ("tparam", "ZzQ"))]}
+    keydefs = [{"kind": "enum", "name": "ZzKeyEnum", "flags": False, "base": None, "auto": True, "values": [("a", 0), ("b", 1)]},
+               {"kind": "alias", "name": "ZzKeyVec", "tparams": [], "type": ("vec", P("string"), None)},
+               {"kind": "alias", "name": "ZzKeyOpt", "tparams": [], "type": ("opt", P("int32"))}]
     if kind == "generic-field":
         # a generic definition that is never instantiated: its own parameter is U, nothing else is in scope
-        return [box, other, {"kind": "record", "name": "ZzHost", "tparams": ["U"], "fields": [("u", ("tparam", "U")), ("bad", bad)]}]
+        return [box, other] + keydefs + [{"kind": "record", "name": "ZzHost", "tparams": ["U"], "fields": [("u", ("tparam", "U")), ("bad", bad)]}]
     if kind == "generic-alias":
-        return [box, other, {"kind": "record", "name": "ZzUsesU", "tparams": ["U"], "fields": [("u", ("tparam", "U"))]},
+        return [box, other] + keydefs + [{"kind": "record", "name": "ZzUsesU", "tparams": ["U"], "fields": [("u", ("tparam", "U"))]},
                 {"kind": "alias", "name": "ZzHost", "tparams": ["U"], "type": ("union", False, [("mine", ("named", "ZzUsesU", [("tparam", "U")])), ("bad", bad)])}]
-    box = [box, other]
+    box = [box, other] + keydefs
     if kind == "field":
         return box + [{"kind": "record", "name": "ZzHost", "tparams": [], "fields": [("ok", P("int32")), ("bad", bad)]}]
     if kind == "alias":
@@ -252,6 +265,8 @@ DEF_VIOLATIONS = [
                                      {"kind": "record", "name": "ZzUse", "tparams": [], "fields": [("x", ("named", "ZzG", [P("int32"), P("int32")]))]}]),
     ("missing-generic-arguments", lambda: [{"kind": "record", "name": "ZzG", "tparams": ["T"], "fields": [("a", ("tparam", "T"))]},
                                            {"kind": "record", "name": "ZzUse", "tparams": [], "fields": [("x", ("vec", ("named", "ZzG", []), None))]}]),
+    ("map-key-through-generic-argument", lambda: [{"kind": "alias", "name": "ZzKeyed", "tparams": ["T"], "type": ("map", ("tparam", "T"), P("int32"))},
+                                                  {"kind": "record", "name": "ZzUse", "tparams": [], "fields": [("x", ("named", "ZzKeyed", [("vec", P("string"), None)]))]}]),
     ("enum-duplicate-symbol", lambda: [{"kind": "enum", "name": "ZzE", "flags": False, "base": None, "auto": False, "values": [("a", 0), ("a", 1)]}]),
     ("enum-duplicate-value", lambda: [{"kind": "enum", "name": "ZzE", "flags": False, "base": None, "auto": False, "values": [("a", 1), ("b", 1)]}]),
     ("enum-value-out-of-range", lambda: [{"kind": "enum", "name": "ZzE", "flags": False, "base": "uint8", "auto": False, "values": [("a", 0), ("b", 256)]}]),
